@@ -269,6 +269,25 @@ def verus_vacuity(tpl_text, stage_dir, wd, name, expect_fail):
 # ----------------------------------------------------------------------------------------------
 # Kani
 # ----------------------------------------------------------------------------------------------
+def harness_paths(units):
+    """harness name -> fully qualified module path, derived from the overlay target file that defines it."""
+    res = {}
+    for u in units:
+        for ov in u.get("overlay", []):
+            txt = open(os.path.join(u["dir"], ov["append"])).read()
+            rel = ov["target"]
+            m = re.match(r"packages/[^/]+/src/(.*)\.rs$", rel)
+            if not m:
+                continue
+            parts = [p for p in m.group(1).split("/") if p not in ("lib", "mod", "main")]
+            modname = re.search(r"mod\s+(verif_kani\w*)", txt)
+            prefix = "::".join(parts + [modname.group(1) if modname else "verif_kani"])
+            for hm in re.finditer(r"(?:fn\s+(\w+)\s*\(|inst!\(\s*(\w+)\s*,)", txt):
+                nm = hm.group(1) or hm.group(2)
+                res.setdefault((u["name"], nm), prefix + "::" + nm)
+    return res
+
+
 def overlay(stage_dir, units):
     """Append every unit's harness modules to the staged files (add-only). Returns {relpath: [append files]}"""
     done = {}
@@ -403,8 +422,9 @@ def kani_group(pkg, obs, flags, stage_dir, scratch, tier):
     for z in sorted(set(flags)):
         cmd += ["-Z", z]
     for o in obs:
-        cmd += ["--harness", o["harness"], ]
-    cmd += ["--exact"] if os.environ.get("VERIF_KANI_EXACT") else []
+        cmd += ["--harness", o.get("harness_path", o["harness"])]
+    if all("harness_path" in o for o in obs):
+        cmd += ["--exact"]
     total_to = 600 + timeout_each * (1 + (len(obs) + jobs - 1) // jobs)
     log(f"[kani] {pkg}: {len(obs)} harnesses, -j {jobs}")
     rc, out, err, secs, to = run(cmd, cwd=stage_dir, timeout=total_to)
@@ -427,6 +447,16 @@ def kani_group(pkg, obs, flags, stage_dir, scratch, tier):
         o["n_checks"] = r["n_checks"]
         o["covers"] = list(r["covers"])
         real_fail = [c for c in r["failed"] if "unwinding assertion" not in c["desc"]]
+        exp = o.get("expect_fail")
+        if exp:
+            # harness is expected to fail exactly the listed checks (a panic the property demands)
+            missing = [e for e in exp if not any(e in c["desc"] for c in real_fail)]
+            real_fail = [c for c in real_fail if not any(e in c["desc"] for e in exp)]
+            if r["status"] == "FAILED" and not real_fail and not missing and not [c for c in r["failed"] if "unwinding assertion" in c["desc"]]:
+                r["status"] = "SUCCESSFUL"
+            elif r["status"] == "SUCCESSFUL" or missing:
+                real_fail.append({"desc": f"expected failure(s) {missing or exp} did not occur (the demanded panic is missing)", "name": "", "loc": ""})
+                r["status"] = "FAILED"
         unwind_fail = [c for c in r["failed"] if "unwinding assertion" in c["desc"]]
         if r["status"] == "SUCCESSFUL":
             o["ok"] = True
@@ -453,6 +483,9 @@ def kani_group(pkg, obs, flags, stage_dir, scratch, tier):
             elif unwind_fail:
                 o["undecided"] = True
                 o["messages"] = ["unwinding assertion failed (bound too small): " + unwind_fail[0]["loc"]]
+            elif "CBMC timed out" in r["tail"] or "CBMC failed" in r["tail"] or "out of memory" in r["tail"].lower():
+                o["undecided"] = True
+                o["messages"] = ["CBMC gave no verdict (timeout / resource limit): " + r["tail"][-200:].strip()]
             elif r["should_panic_note"] or True:
                 # should_panic harness that did not panic, or failed covers
                 o["undecided"] = False
@@ -555,7 +588,17 @@ def main(argv):
         return 0
     t0 = time.time()
     units = load_units()
-    scratch = tempfile.mkdtemp(prefix=f"folo-verif-{prop}-", dir=os.environ.get("VERIF_SCRATCH", "/tmp"))
+    fixed = os.environ.get("VERIF_SCRATCH_FIXED")  # development aid: reuse one scratch dir (incremental Kani builds)
+    if fixed:
+        os.makedirs(fixed, exist_ok=True)
+        scratch = fixed
+        args.keep = True
+        shutil.rmtree(os.path.join(fixed, "verus"), ignore_errors=True)
+        for dn in os.listdir(fixed):
+            if dn.startswith("target-"):
+                shutil.rmtree(os.path.join(fixed, dn, "result_output_dir"), ignore_errors=True)
+    else:
+        scratch = tempfile.mkdtemp(prefix=f"folo-verif-{prop}-", dir=os.environ.get("VERIF_SCRATCH", "/tmp"))
     rc = 2
     try:
         rc = check(prop, tier, seed, units, scratch, t0, args)
@@ -571,7 +614,11 @@ def main(argv):
     return rc
 
 
+HPATHS = {}
+
+
 def check(prop, tier, seed, units, scratch, t0, args):
+    HPATHS.update(harness_paths(units))
     # collect obligations
     kani_obs = {}   # pkg -> list
     kani_flags = {}
@@ -590,6 +637,9 @@ def check(prop, tier, seed, units, scratch, t0, args):
                 o["bound"] = h.get("bound", "")
                 o["what"] = h.get("what", "")
                 pkg = h.get("package", u.get("package"))
+                hp = HPATHS.get((u["name"], h["name"]))
+                if hp:
+                    o["harness_path"] = hp
                 kani_obs.setdefault(pkg, []).append(o)
                 kani_flags.setdefault(pkg, set()).update(h.get("flags", u.get("flags", [])))
                 used = True
